@@ -26,7 +26,7 @@ pub fn exec_case(slice: &str, lines: &[String]) -> Vec<String> {
         "bank" => bank::exec_bank(lines),
         "addr" => addr::exec_addr(lines),
         "route" => route::exec_route(lines),
-        "staking" => staking::exec_staking(lines),
+        "staking" | "staking-det" => staking::exec_staking(lines),
         "wasm-legacy" => wasm::exec_wasm_legacy(lines),
         "wasm-bech" | "wasm-bech-codes" => wasm::exec_wasm_bech(lines),
         s if s.starts_with("wasm") => wasm::exec_wasm(lines),
@@ -53,6 +53,7 @@ pub fn gen_case(slice: &str, rng: &mut Rng, thorough: bool, index: u64) -> Vec<S
         "addr" => addr::gen_addr(rng, thorough),
         "route" => route::gen_route(rng, thorough),
         "staking" => staking::gen_staking(rng, thorough),
+        "staking-det" => staking::gen_staking_det(rng, thorough),
         "wasm" => wasm_gen::gen_wasm(rng, thorough),
         "wasm-admin" => wasm_gen2::gen_admin(rng, thorough),
         "wasm-codes" => wasm_gen2::gen_codes(rng, thorough),
